@@ -15,8 +15,10 @@ import (
 
 // ---- value types ------------------------------------------------------------------------
 
-// Val is the constraint of every argument type: a string-kinded type (so that the harness
-// can tag / read values) that also satisfies fp.Named (needed by the Labelled families).
+// Val is the constraint of the argument types of the type-class call sites (eq/ord/hash/monoid/
+// clone TupleN, whose recording component instances compare the values as strings): a
+// string-kinded type that also satisfies fp.Named. Every other call site is generic over
+// `any` (Labelled families: Named) and creates / reads its values through Mk / Rd (nilable.go).
 type Val interface {
 	~string
 	Name() string
@@ -51,6 +53,18 @@ type Cx struct {
 	Bias     [MaxPos + 1]bool
 	Other    *Cx
 	ForkSeed int
+
+	// Nil / zero argument values (nilable.go). TagV / TagY are the position tags the values are
+	// created from (Mk / MkY), V / Y their renderings (what Rd gives for the created value); for
+	// the string-kinded instantiations both are the same. Nilable: the "nilable-types"
+	// instantiation; ZV / ZY: the positions that carry nil / the zero value (value / fork
+	// alternative), NNil = number of positions in ZV, Sub = builder sub-variant of the call site.
+	TagV, TagY  [MaxPos + 1]string
+	ZV, ZY      [MaxPos + 1]bool
+	Nilable     bool
+	NNil, NNilY int
+	Sub         string
+	Kinds       string // kind letter of every value position (nilable-types instantiation)
 
 	Family, Member string
 	N              int
@@ -149,12 +163,38 @@ func (c *Cx) Witness() any {
 			bias = append(bias, k)
 		}
 	}
+	if c.Nilable {
+		var zv, zy []int
+		for k := 1; k <= MaxPos; k++ {
+			if c.ZV[k] {
+				zv = append(zv, k)
+			}
+			if c.ZY[k] {
+				zy = append(zy, k)
+			}
+		}
+		if k := len(c.Kinds); k >= 1 && k <= MaxPos {
+			n = k
+		}
+		kinds := make([]string, 0, n)
+		for i := 0; i < len(c.Kinds) && i < n; i++ {
+			kinds = append(kinds, KindName(c.Kinds[i]))
+		}
+		return map[string]any{"member": c.Member, "builder_methods": c.Sub, "instantiation": c.Variant, "generation": c.Gen, "argument_kinds": kinds,
+			"values": c.V[1 : n+1], "fork_alternatives": c.Y[1 : n+1], "positions_carrying_nil_or_zero": zv, "fork_alternative_positions_carrying_nil_or_zero": zy}
+	}
 	return map[string]any{"member": c.Member, "instantiation": c.Variant, "generation": c.Gen, "values": c.V[1 : n+1], "second_operand": c.U[1 : n+1],
 		"fork_alternatives": c.Y[1 : n+1], "positions_with_a_different_component_instance": bias}
 }
 
 func (c *Cx) Fail(what, detail string) {
 	c.Failed = true
+	if c.Nilable && c.NNil+c.NNilY > 0 && what != "site-table" {
+		// some argument (or fork alternative) of this case is nil / the zero value of its type
+		c.W.Violation(c.Idx, c.Member+"/"+c.NilKey(what), fmt.Sprintf("%s [%s instantiation, construction %d of 2, arguments %v, fork alternatives %v]: %s: %s", c.Member, c.Variant, c.Gen,
+			c.V[1:len(c.Kinds)+1], c.Y[1:len(c.Kinds)+1], what, detail), c.Witness())
+		return
+	}
 	c.W.Violation(c.Idx, c.Member+"/"+what, fmt.Sprintf("%s [%s instantiation, construction %d of 2]: %s", c.Member, c.Variant, c.Gen, detail), c.Witness())
 }
 
@@ -179,6 +219,21 @@ func (c *Cx) Call(args ...string) Res {
 		Cur.noteForeign(fmt.Sprintf("while this construction was observed, the function argument given to %s was invoked (with %v)", c.who(), args))
 	}
 	c.Calls = append(c.Calls, append([]string(nil), args...))
+	if c.Nilable {
+		nn := 0
+		for _, a := range args {
+			if IsNilRendering(a) {
+				nn++
+			}
+		}
+		if nn > 0 {
+			c.W.Add("nil.f_calls_with_nil_argument", 1)
+			c.W.Add("nil.f_received_nil_arguments", int64(nn))
+			if nn == len(args) {
+				c.W.Add("nil.f_calls_with_only_nil_arguments", 1)
+			}
+		}
+	}
 	return Res(fmtCall(c.Gen, args))
 }
 
@@ -222,6 +277,9 @@ func (c *Cx) Called() {
 // Result compares the observed result with the expected one and then checks f's calls.
 func (c *Cx) Result(got, want string) {
 	c.note("result " + got)
+	if c.Nilable && c.NNil > 0 {
+		c.W.Add("nil.results_compared_with_nil_argument", 1)
+	}
 	if got != want {
 		c.Fail("result", fmt.Sprintf("result %q, defining equation gives %q", got, want))
 	}
@@ -251,8 +309,13 @@ func (c *Cx) Vec(what string, got []string, want ...string) {
 
 // Eqv compares an observed component with the expected one; both must have the same type
 // (compile time) and the same value (run time).
-func Eqv[A Val](c *Cx, what string, got, want A) {
-	c.Eqs(what, string(got), string(want))
+func Eqv[A any](c *Cx, what string, got, want A) {
+	c.Eqs(what, Rd(got), Rd(want))
+	if p, ok := any(got).(*PBox); ok {
+		if q, _ := any(want).(*PBox); p != q {
+			c.Fail(what+"-identity", fmt.Sprintf("%s is another pointer (%p) than the argument (%p)", what, p, q))
+		}
+	}
 }
 
 // Pair builds a pair by struct literal (input of product.FlattenN).
@@ -267,10 +330,21 @@ func (c *Cx) Step(k int, x string) string {
 	return fmt.Sprintf("f%d(%s)", k, x)
 }
 
-// Nested is the defining expression of a composition of n steps: step n ( ... step 1 (x)).
+// StepR is the rendering of the value step k returns into value position pos when it is given
+// a value rendered x: the step's tag, or nil / zero when pos is in the mask of the case.
+func (c *Cx) StepR(k, pos int, x string) string {
+	t := c.Step(k, x)
+	if !c.Nilable {
+		return t
+	}
+	return Render(c.Kinds[pos-1], t, c.ZV[pos])
+}
+
+// Nested is the defining expression of a composition of n steps: step n ( ... step 1 (x));
+// step k returns into value position k+1.
 func (c *Cx) Nested(n int, x string) string {
 	for k := 1; k <= n; k++ {
-		x = c.Step(k, x)
+		x = c.StepR(k, k+1, x)
 	}
 	return x
 }
@@ -379,9 +453,13 @@ func (c *Cx) Fork(n0, level int, fin1, fin2 func() string, vec1, vec2 []string, 
 		return
 	}
 	saw1, saw2 := false, false
+	if c.Nilable && (c.NNil > 0 || c.NNilY > 0) {
+		c.W.Add("nil.forks_with_nil", 1)
+	}
 	for _, cl := range c.Calls[n0:] {
 		switch {
-		case sameVec(cl, vec1):
+		case sameVec(cl, vec1) && (!saw1 || !sameVec(vec1, vec2)):
+			// (equal vectors, possible when both carry nil at the only position: two calls)
 			saw1 = true
 		case sameVec(cl, vec2):
 			saw2 = true
